@@ -208,7 +208,7 @@ fn gen_d(r: &mut Rng) -> D {
 /// character inside markup-looking text (that is the separately labelled sub-family) and not the
 /// closing tag itself
 fn gen_raw_body(r: &mut Rng) -> String {
-    let atoms = ["x", " ", "\n", "\t", "{{ a }}", "{% if b %}", "{%- assign q = 1 -%}", "{{", "{%", "}}", "%}", "{{ a | upcase", "{% endif %}", "{% raw %}", "é", "{", "}", "  ", "{{- 1 -}}", "{% comment %}", "\u{a0}"];
+    let atoms = ["x", " ", "\n", "\t", "\r\n", "\r", "{{ x -}}", "{% y -%}", "{{ a }}", "{% if b %}", "{%- assign q = 1 -%}", "{{", "{%", "}}", "%}", "{{ a | upcase", "{% endif %}", "{% raw %}", "é", "{", "}", "  ", "{{- 1 -}}", "{% comment %}", "\u{a0}"];
     let n = r.below(6);
     (0..n).map(|_| r.choose(&atoms)).collect()
 }
